@@ -8,6 +8,7 @@ import (
 	"runtime"
 	"runtime/debug"
 	"strconv"
+	"strings"
 	"sync/atomic"
 	"testing"
 	"time"
@@ -52,7 +53,30 @@ const (
 	ExitOK       = 0
 	ExitWatchdog = 3 // wall-clock watchdog fired: the in-flight plan did not finish
 	ExitInfra    = 4 // harness trouble
+	ExitRecycle  = 5 // the worker grew too large: restart it at Inflight.Run
 )
+
+// recycleKB: see WorkerMain; $VERIF_RECYCLE_KB overrides it (tests).
+var recycleKB = func() int {
+	if n, err := strconv.Atoi(os.Getenv("VERIF_RECYCLE_KB")); err == nil && n > 0 {
+		return n
+	}
+	return 2_500_000
+}()
+
+// residentKB reads the resident set size of this process (0 if unknown).
+func residentKB() int {
+	raw, err := os.ReadFile("/proc/self/statm")
+	if err != nil {
+		return 0
+	}
+	f := strings.Fields(string(raw))
+	if len(f) < 2 {
+		return 0
+	}
+	pages, _ := strconv.Atoi(f[1])
+	return pages * (os.Getpagesize() / 1024)
+}
 
 // WorkerMain is the body of every engine's TestWorker. Without $VERIF_WORKER it
 // is a no-op so that a plain `go test ./...` in /verif stays green.
@@ -181,6 +205,20 @@ func WorkerMain(t *testing.T, e Engine) {
 			n++
 			if n%16 == 0 {
 				runtime.GC()
+			}
+			// Goroutines the code under test leaves blocked, and the race
+			// runtime's own bookkeeping, are never given back: a worker that has
+			// grown past 2.5 GiB hands the rest of its stripe to a fresh process
+			// (16 of them at 5 GB each met the kernel's OOM killer in a thorough
+			// C19 run).
+			if n%64 == 0 && run+cfg.Stride < cfg.End && residentKB() > recycleKB {
+				w.Flush()
+				out.Close()
+				if cfg.Inflight != "" {
+					inf, _ := json.Marshal(Inflight{Run: run + cfg.Stride, Recycle: true})
+					os.WriteFile(cfg.Inflight, inf, 0o644)
+				}
+				os.Exit(ExitRecycle)
 			}
 		}
 	case "plans":
